@@ -219,11 +219,12 @@ PPL::Grid::quick_equivalence_test(const Grid& y) const {
     if (x_num_lines == 0) {
       // Check for syntactic identity.
 
+      // Note: the minimal form is not canonical (the system obtained
+      // by conversion is triangular, but its rows are not reduced with
+      // respect to each other), hence nothing can be concluded from
+      // two syntactically different systems.
       if (x.gen_sys == y.gen_sys) {
         return Grid::TVB_TRUE;
-      }
-      else {
-        return Grid::TVB_FALSE;
       }
     }
   }
@@ -232,11 +233,9 @@ PPL::Grid::quick_equivalence_test(const Grid& y) const {
   //       checks.
 
   if (css_normalized) {
+    // As above: only syntactic identity is conclusive.
     if (x.con_sys == y.con_sys) {
       return Grid::TVB_TRUE;
-    }
-    else {
-      return Grid::TVB_FALSE;
     }
   }
 
